@@ -377,14 +377,23 @@ theorem mulLargeFrontier_spec (W : Nat) (hW : 1 ≤ W) (lhs rhs : List Nat) :
     (schoolbook, chunk splitting, Karatsuba refined; Toom-3 same-length kernel at the frontier) on a
     zero-filled buffer, whose `debug_assert_zero!` carry is zero; equal operands use the frontier
     squaring kernel. -/
+theorem squareLarge_spec (W : Nat) (hW : 3 ≤ W) (ws : List Nat) (hw : IsWords W ws) (hne : ws ≠ []) :
+    (squareLarge W ws).value W = val W ws * val W ws ∧ (squareLarge W ws).Canon W := by
+  obtain ⟨h1, h2⟩ := sqrBuffer_spec W hW ws hw hne
+  exact ⟨by unfold squareLarge; rw [fromBuffer_value, h1], fromBuffer_canon W _ h2⟩
+
 theorem mulLarge_spec (W : Nat) (hW : 3 ≤ W) (lhs rhs : List Nat) (hl : IsWords W lhs)
     (hr : IsWords W rhs) :
     (mulLarge W lhs rhs).value W = val W lhs * val W rhs ∧ (mulLarge W lhs rhs).Canon W := by
   unfold mulLarge
   split
   · rename_i heq
-    have := mulLargeFrontier_spec W (by omega) lhs lhs
-    rw [← heq]; exact this
+    by_cases hnil : lhs = []
+    · subst hnil; subst heq
+      exact ⟨by simp [squareLarge, sqrBuffer, sqrSimple, sqrTriLoop, sqrDiagLoop, fromBuffer_value],
+        fromBuffer_canon W _ (by simp [sqrBuffer, sqrSimple, sqrTriLoop, sqrDiagLoop]; exact IsWords.cons (Nat.two_pow_pos W) (IsWords.nil W))⟩
+    · have := squareLarge_spec W hW lhs hl hnil
+      rw [← heq]; exact this
   · have hc := addSignedMul_contract W hW (lhs.length + rhs.length)
       (List.replicate (lhs.length + rhs.length) 0) false lhs rhs (by simp)
       (isWords_replicate_zero W _) hl hr
@@ -418,7 +427,7 @@ theorem TRepr.mul_spec (W : Nat) (hW : 3 ≤ W) (a b : TRepr) (ha : a.Canon W) (
     | small y => exact mulLargeDword_spec W ws y ha.large_words hb
     | large w1 => exact mulLarge_spec W hW ws w1 ha.large_words hb.large_words
 
-theorem TRepr.sqr_spec (W : Nat) (hW : 1 ≤ W) (a : TRepr) (ha : a.Canon W) :
+theorem TRepr.sqr_spec (W : Nat) (hW : 3 ≤ W) (a : TRepr) (ha : a.Canon W) :
     (a.sqr W).value W = a.value W * a.value W ∧ (a.sqr W).Canon W := by
   cases a with
   | small d =>
@@ -430,7 +439,7 @@ theorem TRepr.sqr_spec (W : Nat) (hW : 1 ≤ W) (a : TRepr) (ha : a.Canon W) :
       rw [two_pow_two_mul]; exact Nat.mul_lt_mul'' h h
     · obtain ⟨h1, h2⟩ := spill_spec W (d * d) (Nat.mul_lt_mul'' ha ha)
       exact ⟨by rw [fromBuffer_value]; exact h1, fromBuffer_canon W _ h2⟩
-  | large ws => exact mulLargeFrontier_spec W hW ws ws
+  | large ws => exact squareLarge_spec W hW ws ha.large_words ha.large_ne_nil
 
 /-- `impl_ibig_mul`: sign rule on top of an exact magnitude product -/
 theorem ibigMul_spec (W : Nat) (hW : 3 ≤ W) (a b : SRepr) (ha : a.WF W) (hb : b.WF W) :
